@@ -94,6 +94,17 @@ func init() {
 					b.Add(b, big.NewInt(int64(g.R.between(-9, 9))))
 					x = finDec(false, b, -k)
 				}
+				if g.R.Intn(4) == 0 { // just outside the power-series range: adding k*ln(10) back cancels leading digits (1.1 < x < 1.3)
+					s := []string{"11", "110", "12", "1100", "115"}[g.R.Intn(5)]
+					for k := g.R.between(1, p+3); k > 0; k-- {
+						s += string(rune('0' + g.R.Intn(10)))
+					}
+					b, _ := new(big.Int).SetString(s, 10)
+					x = finDec(false, b, -(len(s) - 1))
+					if g.R.Intn(3) == 0 { // low precision, where one unit is large
+						c.P = g.R.between(1, 5)
+					}
+				}
 				g.emit(mkA("ln", c, x, x, 0, "", fresh), "ln")
 			case 2: // log10
 				x.E = -nd + g.R.between(-12, 12)
